@@ -131,7 +131,7 @@ func (l *FakeLis) ServeConn(func(net.Conn) (socket.Context, error), func(socket.
 
 func (e *PipeEnd) readNonblock(buf []byte) ([]byte, error) {
 	p := e.p
-	vs.BlockObj("env:poll-read "+e.String(), &p.obj[e.side], nil)
+	vs.BlockObj(e.wPoll, &p.obj[e.side], nil)
 	if p.closed[e.side] {
 		return nil, io.EOF
 	}
@@ -178,7 +178,7 @@ func (l *FakeLis) ServeMessages(opened func(socket.Messages) (socket.Context, er
 		for k := 0; k < l.n.pollWorkers; k++ {
 			vs.GoLib(fmt.Sprintf("pollworker%d.%d", c.id, k), func() {
 				for {
-					vs.BlockObj("env:poll-wait "+end.String(), &end.p.obj[end.side], func() bool { return closing || end.readable() })
+					vs.BlockObj(end.wPollWait, &end.p.obj[end.side], func() bool { return closing || end.readable() })
 					if closing {
 						return
 					}
